@@ -29,7 +29,8 @@ impl Tier {
 #[derive(Default)]
 struct Inner {
     evaluations: u64,
-    nontrivial: BTreeSet<String>,
+    /// 64-bit fingerprints of the distinct non-trivial case keys (only their number is reported).
+    nontrivial: std::collections::HashSet<u64>,
     samples: Vec<Value>,
     counters: BTreeMap<String, u64>,
     sets: BTreeMap<String, BTreeSet<String>>,
@@ -102,7 +103,10 @@ impl Report {
     }
     /// Record a distinct non-trivial case key (counted as a set).
     pub fn nontrivial(&self, key: String) {
-        self.inner.lock().unwrap().nontrivial.insert(key);
+        use std::hash::{Hash, Hasher};
+        let mut h = std::collections::hash_map::DefaultHasher::new();
+        key.hash(&mut h);
+        self.inner.lock().unwrap().nontrivial.insert(h.finish());
     }
     pub fn count(&self, name: &str, n: u64) {
         *self
